@@ -49,3 +49,22 @@ Proof.
   - bad_first (U "arraySlice") k_arraySlice a1. destruct a2; lib_open (U "arraySlice") k_arraySlice; crunch.
     all: destruct a3; crunch.
 Qed.
+
+(* ---- arrayNewSize *)
+Lemma newsize_core : forall h n z v, integral n z ->
+  abs_call (k_arrayNewSize h [AV (VNum n); AV v]) = alloc_ret (abs h) (ASeq (repeat v (Z.to_nat z))).
+Proof. intros h n z v H. unfold k_arrayNewSize. cbn [as_num]. destruct H as [-> _]. fin. Qed.
+
+Lemma step_arrayNewSize : refines (U "arrayNewSize") sp_arrayNewSize.
+Proof.
+  intros args h. destruct args as [|a1 [|a2 [|a3 rest]]].
+  - lib_open (U "arrayNewSize") k_arrayNewSize. unfold sp_arrayNewSize. rewrite arg_index_zero.
+    apply (newsize_core h (NInt 0) 0). apply integral_int.
+  - bad_first (U "arrayNewSize") k_arrayNewSize a1.
+    lib_open (U "arrayNewSize") k_arrayNewSize. unfold sp_arrayNewSize. num_cases; try reflexivity.
+    validate_step. apply newsize_core; auto.
+  - bad_first (U "arrayNewSize") k_arrayNewSize a1.
+    lib_open (U "arrayNewSize") k_arrayNewSize. unfold sp_arrayNewSize. num_cases; try reflexivity.
+    validate_step. apply newsize_core; auto.
+  - destruct a1; lib_open (U "arrayNewSize") k_arrayNewSize; crunch.
+Qed.
